@@ -400,6 +400,21 @@ theorem srt_varint_kind (k : IntKind) (named : Bool) (v : Int) (hv : k.holds v =
       · simp [hbig]
     exact hall b hk (.int k named) _ hct
 
+theorem ms_cqldur (m d n : Int) : marshalScalar .duration (.cqldur m d n) = .ok (some (encVints m d n)) := rfl
+theorem us_cqldur (isNil : Bool) (d : Bytes) : unmarshalScalar .duration isNil d .cqldur =
+    if d = [] then .ok (.cqldur 0 0 0) else
+      (match decVints d with | some (m, dd, n) => .ok (.cqldur m dd n) | none => .err) := rfl
+
+/-- gocql.Duration ↔ duration: months and days of int32, nanoseconds of int64 — every value (three zig-zag vints) -/
+theorem srt_duration (m d n : Int) (hm : fitsS 4 m = true) (hd : fitsS 4 d = true) (hn : fitsS 8 n = true) :
+    SRT .duration .cqldur (.cqldur m d n) := by
+  intro ob h
+  rw [ms_cqldur] at h
+  have := ok_inj h; subst this
+  rw [us_cqldur]
+  simp only [dataBytes, Option.getD, if_neg (C02Vint.encVints_ne_nil m d n hm hd hn),
+    C02Vint.decVints_encVints m d n hm hd hn]
+
 /-- the documented (column, Go type, value) triples of the scalar columns for which the same-type round trip is claimed:
     each line a Go kind with ALL its values, restricted only where the line says so -/
 inductive Leaf : CqlTy → GoTy → GoVal → Prop
@@ -435,6 +450,9 @@ inductive Leaf : CqlTy → GoTy → GoVal → Prop
       (hrange : fitsU 4 (sec / 86400 + 2147483648) = true) : Leaf .date .time (.time sec 0)
   | uuid {t} (ht : isUuid t) (b : Bytes) (hb : b.length = 16) : Leaf t .uuid (.uuid b)
   | arr16 {t} (ht : isUuid t) (b : Bytes) (hb : b.length = 16) : Leaf t .arr16 (.arr16 b)
+  /-- gocql.Duration: months / days of int32, nanoseconds of int64 -/
+  | duration (m d n : Int) (hm : fitsS 4 m = true) (hd : fitsS 4 d = true) (hn : fitsS 8 n = true) :
+      Leaf .duration .cqldur (.cqldur m d n)
   /-- net.IP: 4 bytes, or 16 bytes not IPv4-mapped (the mapped ones: `C02_inet_mapped`) -/
   | inet (b : Bytes) (hb : b.length = 4 ∨ (b.length = 16 ∧ ipTo4 b = none)) : Leaf .inet .ip (.ip b)
 
@@ -456,7 +474,7 @@ theorem Leaf.shape {t : CqlTy} {ty : GoTy} {g : GoVal} (h : Leaf t ty g) :
 
 /-- SCALAR ROUND TRIP: for every documented triple of `Leaf` — every scalar column type, each Go kind with all its
     values — whatever Marshal returns without error, Unmarshal of it into a fresh value of the same Go type is the
-    value that was given; every protocol version.  (Same statement for duration: NOT proved, see props `partial`.) -/
+    value that was given; every protocol version. -/
 theorem C02_scalar_roundtrip (p : Nat) (t : CqlTy) (ty : GoTy) (g : GoVal) (h : Leaf t ty g) :
     ∀ ob, marshal p t g = .ok ob → unmarshal p t ty ob = .ok g := by
   obtain ⟨hs1, hs2, hs3⟩ := h.shape
@@ -483,6 +501,7 @@ theorem C02_scalar_roundtrip (p : Nat) (t : CqlTy) (ty : GoTy) (g : GoVal) (h : 
   | uuid ht b hb => exact srt_uuid _ ht b hb
   | arr16 ht b hb => exact srt_arr16 _ ht b hb
   | inet b hb => exact srt_inet b hb
+  | duration m d n hm hd hn => exact srt_duration m d n hm hd hn
 
 /-- non-vacuity: boundaries named by the property — a negative big.Int in the upper half of its byte width, −0.0,
     a NaN payload, a pre-epoch instant, the zero time -/
@@ -491,6 +510,8 @@ example : Leaf .double (.f64 false) (.f64 false 0x8000000000000000) := .f64 _ _ 
 example : Leaf .float (.f32 false) (.f32 false 0x7fa00001) := .f32 _ _ (by decide) (by intro h; cases h)
 example : Leaf .timestamp .time (.time (-1) 999000000) := .tsTime _ _ (by decide) (by decide) (by decide) (by decide)
 example : Leaf .timestamp .time (.time zeroTimeSec 0) := .tsTime _ _ (by decide) (by decide) (by decide) (by decide)
+example : Leaf .duration .cqldur (.cqldur (-2147483648) 2147483647 (-9223372036854775808)) :=
+  .duration _ _ _ (by decide) (by decide) (by decide)
 example : Leaf .date .time (.time (-86400) 0) := .dateTime _ (by decide) (by decide) (by decide)
 example : marshalVarintBig (-32768) = [128, 0] := by
   rw [marshalVarintBig_spec, specVarint]; simp [byteOfNat]; rw [specVarint]; simp [byteOfNat]
@@ -514,7 +535,8 @@ theorem C02_inet_mapped (b : Bytes) (h16 : b.length = 16) (hz : b.take 10 = List
 
 /-- the values for which the same-type round trip is claimed, built over the scalar triples of `Leaf`: pointers and
     pointers to pointers (nil, or a chain down to a value that is not written as null), lists / sets bound to slices and
-    arrays, maps (a Go map holds each key once), nil slices / maps, tuples bound to structs — nested to ANY depth.  Under protocol ≤ 2 the
+    arrays, maps (a Go map holds each key once), nil slices / maps, tuples bound to structs, slices, arrays and
+    []interface{}, UDTs bound to map[string]interface{} — nested to ANY depth.  Under protocol ≤ 2 the
     elements must not be null (the 2-byte framing has no null element: KF-C02-3). -/
 inductive Clean (p : Nat) : CqlTy → GoTy → GoVal → Prop
   | leaf {t ty g} : Leaf t ty g → Clean p t ty g
@@ -534,6 +556,21 @@ inductive Clean (p : Nat) : CqlTy → GoTy → GoVal → Prop
   | tuple (fs : List TField) : (∀ f, f ∈ fs → f.kind ≠ .null → Clean p f.t (goTypeOf f.t) f.v) →
       (∀ f, f ∈ fs → f.side p) →
       Clean p (.tuple (fs.map (·.t))) (.struct (fs.map (·.ty))) (.struct (fs.map (·.val)))
+  /-- UDT ↔ map[string]interface{} holding a goType(field) value for every field of the UDT (distinct names) -/
+  | udtMap (fl : List UField) : (fl.map (·.name)).Nodup → fl ≠ [] →
+      (∀ f, f ∈ fl → Clean p f.t (goTypeOf f.t) f.v) → (∀ f, f ∈ fl → Small p f.t f.v) →
+      Clean p (.udt (fl.map (·.name)) (fl.map (·.t))) .udtmap (.udtmap false (fl.map (·.name)) (fl.map (·.v)))
+  /-- tuple ↔ []G / [n]G: every field of the one Go type `g` (goType(elem) for every element, or a pointer to it) -/
+  | tupleSlice (fs : List TField) (g : GoTy) : (∀ f, f ∈ fs → f.kind ≠ .null → Clean p f.t (goTypeOf f.t) f.v) →
+      (∀ f, f ∈ fs → f.side p) → (∀ f, f ∈ fs → f.ty = g) → (g == GoTy.iface) = false →
+      Clean p (.tuple (fs.map (·.t))) (.slice g) (.slice false (fs.map (·.val)))
+  | tupleArray (fs : List TField) (g : GoTy) : (∀ f, f ∈ fs → f.kind ≠ .null → Clean p f.t (goTypeOf f.t) f.v) →
+      (∀ f, f ∈ fs → f.side p) → (∀ f, f ∈ fs → f.ty = g) →
+      Clean p (.tuple (fs.map (·.t))) (.array (fs.map (·.t)).length g) (.array (fs.map (·.val)))
+  /-- tuple ↔ []interface{} holding a goType(elem) value per element (no nil element) -/
+  | tupleIfaces (fs : List TField) : (∀ f, f ∈ fs → f.kind ≠ .null → Clean p f.t (goTypeOf f.t) f.v) →
+      (∀ f, f ∈ fs → f.side p) → (∀ f, f ∈ fs → f.kind = .iface) →
+      Clean p (.tuple (fs.map (·.t))) (.slice .iface) (.ifaces (fs.map (·.val)))
 
 /-- NESTED ROUND TRIP, by structural induction: for every `Clean` value — scalars inside pointers inside lists inside
     maps inside lists …, any depth — whatever Marshal returns without error, Unmarshal of it into a fresh value of the same
@@ -551,6 +588,25 @@ theorem C02_nested_roundtrip (p : Nat) (t : CqlTy) (ty : GoTy) (g : GoVal) (h : 
   | map _ _ hnn hd ihk ihv => exact rt_map p _ _ _ _ _ (fun kv hkv => ⟨ihk kv hkv, ihv kv hkv⟩) hnn hd
   | nilMap kt vt gk gv => exact rt_nil_map p kt vt gk gv
   | tuple fs _ hside ih => exact rt_tuple_struct p _ _ _ (fieldsRT_of p fs ih hside)
+  | udtMap fl hnd hne _ hsm ih => exact rt_udtmap p fl hnd hne (fun f hf => ⟨ih f hf, hsm f hf⟩)
+  | tupleSlice fs g _ hside hty hg ih =>
+    have h := fieldsRT_of p fs ih hside
+    rw [map_ty_replicate fs g hty] at h
+    exact rt_tuple_slice p _ g _ h hg
+  | tupleArray fs g _ hside hty ih =>
+    have h := fieldsRT_of p fs ih hside
+    rw [map_ty_replicate fs g hty] at h
+    exact rt_tuple_array p _ g _ h
+  | tupleIfaces fs _ hside hk ih =>
+    have h := fieldsRT_of p fs ih hside
+    rw [map_ty_replicate fs .iface (fun f hf => by simp [TField.ty, hk f hf])] at h
+    refine rt_tuple_ifaces p _ _ h ?_
+    intro v hv
+    obtain ⟨f, hf, rfl⟩ := List.mem_map.mp hv
+    have hs := hside f hf
+    simp only [TField.side, hk f hf] at hs
+    simp only [TField.val, hk f hf]
+    exact ⟨hs.2.1, hs.1⟩
 
 /-- non-vacuity: list<map<text, list<int>>> — a slice holding a nil map and a map from "b" to a slice of *int (one
     pointing to 7, one nil = a null element, protocol 4) -/
@@ -613,6 +669,42 @@ example : Clean 4 (.list (.tuple [.int, .text])) (.slice (.struct [.ptr (.int .i
       simp [marshal, marshalScalar, marshalVarcharColumn] at hb
       subst hb; simp
 
+/-- non-vacuity: tuple<int, int> ↔ []int, [2]*int and []interface{}{int, int} -/
+example : Clean 4 (.tuple [.int, .int]) (.slice .iface) (.ifaces [.int .int false 1, .int .int false (-1)]) := by
+  have hs : ∀ n : Int, Small 4 .int (.int .int false n) := by
+    intro n b hb
+    simp [marshal, marshalScalar, marshalIntColumn, optM, marshalIntKind] at hb
+    split at hb
+    · rename_i heq
+      split at heq
+      · cases heq
+      · injection heq with heq
+        injection hb with hb
+        injection hb with hb
+        subst hb; subst heq; simp [encInt]
+    · cases hb
+  refine Clean.tupleIfaces [⟨.int, .iface, .int .int false 1⟩, ⟨.int, .iface, .int .int false (-1)⟩] ?_ ?_ ?_
+  · intro f hf _
+    simp at hf
+    rcases hf with rfl | rfl <;> exact .leaf (.int (col := .int) rfl _ _ _ (by decide))
+  · intro f hf
+    simp at hf
+    rcases hf with rfl | rfl <;> exact ⟨rfl, rfl, hs _⟩
+  · intro f hf
+    simp at hf
+    rcases hf with rfl | rfl <;> rfl
+
+/-- non-vacuity: udt<a text, b text> ↔ map[string]interface{}{"a": "A", "b": ""} -/
+example : Clean 4 (.udt ["a", "b"] [.text, .text]) .udtmap (.udtmap false ["a", "b"] [.str false [65], .str false []]) := by
+  refine Clean.udtMap [⟨"a", .text, .str false [65]⟩, ⟨"b", .text, .str false []⟩] (by decide) (by simp) ?_ ?_
+  · intro f hf
+    simp at hf
+    rcases hf with rfl | rfl <;> exact .leaf (.str (Or.inr (Or.inl rfl)) _ _)
+  · intro f hf b hb
+    simp at hf
+    rcases hf with rfl | rfl <;>
+      (simp [marshal, marshalScalar, marshalVarcharColumn] at hb; subst hb; simp)
+
 /-- TUPLE step (element theorems as hypotheses, `FieldsRT`): a struct bound to tuple<T1, …, Tn> whose i-th field has
     type goType(Ti) — holding a value whose round trip holds — or *goType(Ti) — nil, or pointing to such a value that is
     not written as null — is given back unchanged by Marshal followed by Unmarshal into the same struct type: every arity,
@@ -636,8 +728,8 @@ example : FieldsRT 4 [.int, .list .text, .text] [.ptr (.int .int false), .slice 
   · intro b hb; simp [marshal] at hb
 
 /-- duration, the zig-zag layer: decIntZigZag (marshal.go) inverts encIntZigZag on EVERY int64 (months, days and
-    nanoseconds of a duration are written as vints of their zig-zag codes).  The byte layer — decVint's loop after
-    encVint's — is tied to the code (GenTie.C12.encVint / decVint) and compared by `rt` / `rtsame`, not yet proved inverse. -/
+    nanoseconds of a duration are written as vints of their zig-zag codes).  The byte layer: `C02Vint.decVint_specVint`
+    (decVint reads back the vint encVint wrote, every int64) — used by the `duration` line of `Leaf`. -/
 theorem C02_zigzag_roundtrip (n : Int) (h : fitsS 8 n = true) : decIntZigZag (encIntZigZag n) = n := by
   rw [C12Vint.encIntZigZag_spec n h, C02Vint.decIntZigZag_spec _ (C12Vint.zigzag_lt n h), C12Vint.unzigzag_zigzag]
 
@@ -741,6 +833,46 @@ theorem C02_date_int_string_no_silent_loss (s : Bytes) :
 
 example : StrSpec.strSpec .date [50, 48, 50, 51, 45, 48, 50, 45, 50, 57] = .merr := by decide   -- "2023-02-29"
 example : StrSpec.parseDate [49, 57, 54, 57, 45, 49, 50, 45, 51, 49] = some (-1) := by decide    -- "1969-12-31"
+
+/-- uuid / timeuuid from a string: `ok` only for 32 hex digits with hyphens between bytes (upper case, missing or extra
+    hyphens are accepted — braces, `urn:uuid:`, whitespace, 31 / 33 digits are not); the bytes are those digits and the
+    canonical string a `*string` gets back denotes the same UUID -/
+theorem C02_uuid_string_no_silent_loss (t : CqlTy) (ht : isUuid t) (s : Bytes) :
+    (∀ b back, StrSpec.strSpec t s = .ok b back →
+      StrSpec.parseUUIDLit s = some b ∧ back = uuidString b ∧ StrSpec.parseUUIDLit back = some b) ∧
+    (StrSpec.parseUUIDLit s = none → StrSpec.strSpec t s = .merr) := by
+  have key : StrSpec.strSpec t s =
+      (match StrSpec.parseUUIDLit s with
+       | none => .merr
+       | some b => (match StrSpec.parseUUIDLit (uuidString b) with
+          | some b' => if b' = b then .ok b (uuidString b) else .inconsistent
+          | none => .inconsistent)) := by
+    rcases ht with rfl | rfl <;> rfl
+  rw [key]
+  refine ⟨?_, ?_⟩
+  · intro b back h
+    cases hp : StrSpec.parseUUIDLit s with
+    | none => rw [hp] at h; cases h
+    | some b0 =>
+      rw [hp] at h
+      simp only at h
+      cases hb : StrSpec.parseUUIDLit (uuidString b0) with
+      | none => rw [hb] at h; cases h
+      | some b' =>
+        rw [hb] at h
+        simp only at h
+        split at h
+        · rename_i he
+          injection h with h1 h2
+          subst h1; subst h2; subst he
+          exact ⟨rfl, rfl, hb⟩
+        · cases h
+  · intro hp
+    rw [hp]
+
+example : StrSpec.parseUUIDLit /- "{6ba7b810-9dad-11d1-80b4-00c04fd430c8}" -/ [123, 54, 98, 97, 55, 98, 56, 49, 48, 45, 57, 100, 97, 100, 45, 49, 49, 100, 49, 45, 56, 48, 98, 52, 45, 48, 48, 99, 48, 52, 102, 100, 52, 51, 48, 99, 56, 125] = none := by decide
+example : StrSpec.parseUUIDLit /- "6BA7B8109DAD11D180B400C04FD430C8" -/ [54, 66, 65, 55, 66, 56, 49, 48, 57, 68, 65, 68, 49, 49, 68, 49, 56, 48, 66, 52, 48, 48, 67, 48, 52, 70, 68, 52, 51, 48, 67, 56] =
+    some [0x6b, 0xa7, 0xb8, 0x10, 0x9d, 0xad, 0x11, 0xd1, 0x80, 0xb4, 0x00, 0xc0, 0x4f, 0xd4, 0x30, 0xc8] := by decide
 
 /-- FULL STATEMENT (does not hold): "… into any documented target type able to represent the value".  2^63 written by a
     bare uint64 into a varint column (00 80 00 00 00 00 00 00 00) decodes into *uint64 and *big.Int, but `*uint`, which
